@@ -189,11 +189,11 @@ def oracle(case, obs):
     if case.get("close_rd_after") is not None:
         return None   # the caller stopped listening: nothing is observable any more, only "does not raise / hang on exit"
     if obs.get("round2") is not None:
-        r2 = oracle(case, dict(obs["round2"], round2=None))
+        r2 = oracle(H.connection_case(case, obs["round2"].get("label")), dict(obs["round2"], round2=None, params_changed=False))
         if r2 is not None:
             return (r2[0], "second connection with the same parameters object: " + r2[1], r2[2])
     for j, other in enumerate(obs.get("others") or []):
-        r2 = oracle(case, dict(other, others=None))
+        r2 = oracle(H.connection_case(case, other.get("label")), dict(other, others=None, params_changed=False))
         if r2 is not None:
             return (r2[0], f"transport {j + 2} of {len(obs['others']) + 1} alive in the process: " + r2[1], r2[2])
     all_reqs = case["reqs"]
@@ -284,6 +284,18 @@ def oracle(case, obs):
                 maybe.add(b["sess"])
         if last is not None and hdrs[j] != last and hdrs[j] not in maybe:
             return ("session-header-stale", f"POST {j} carries session {hdrs[j]!r}, most recent issued is {last!r}", {"post": j, "session": last})
+        if last is None and not maybe and hdrs[j] is not None:
+            # nothing issued to THIS connection yet: only what the caller configured may be sent
+            cfg = case.get("cfg") or {}
+            configured = [case.get("session0")] + [v for k_, v in (cfg.get("headers") or {}).items() if k_.lower() == "mcp-session-id"]
+            if not any(c and c in hdrs[j] for c in configured):
+                return ("session-header-not-issued", f"POST {j} carries session {hdrs[j]!r} although the server has issued this connection none "
+                        f"and none is configured", {"post": j, "session": None})
+    if obs.get("params_changed"):
+        # the mechanism behind a session id leaking from one connection into another: judged last, so that a case in
+        # which the leak is visible on the wire is reported as that
+        return ("parameters-object-mutated", "using the connection changed the StreamableHTTPParameters object it was built from "
+                "(headers / session_id): the next connection built from it does not start from what the caller configured", {"params_changed": False})
     return None
 
 
@@ -319,10 +331,16 @@ class _Base(Suite):
             return "client crashed"
         if not H.same(case, H.comparable_impl(o), m):
             return "transcript or headers differ"
-        if o.get("round2") is not None and not H.same(case, H.comparable_impl(o["round2"]), m):
+        def relabel(ob):
+            # the model ran the case as the first connection sees it: strip the per-connection suffix of the session ids
+            lab = ob.get("label")
+            if not lab:
+                return ob
+            return dict(ob, hdrs=[(h[: -len(lab) - 1] if isinstance(h, str) and h.endswith("-" + lab) else h) for h in ob["hdrs"]])
+        if o.get("round2") is not None and not H.same(case, H.comparable_impl(relabel(o["round2"])), m):
             return "second connection differs"
         for other in o.get("others") or []:
-            if not H.same(case, H.comparable_impl(other), m):
+            if not H.same(case, H.comparable_impl(relabel(other)), m):
                 return "a second transport in the same process behaves differently"
         return None
 
